@@ -135,7 +135,7 @@ def gen_cases(rng, n):
         else:
             tags = ['A', 'B', 'C'][:rng.randint(1, 3)]
             macros = [(t, rng.randint(1, 4), rng.randint(1, 3), rng.choice(NAMES)) for t in tags]
-            sequence = [rng.choice(tags) for _ in range(rng.randint(1, 4))]
+            sequence = [rng.choice(tags) for _ in range(rng.randint(1, 4) if rng.random() < 0.7 else rng.randint(4, 7))]
             sizes = []
             for t in sequence:
                 _, lev, bf, _ = next(m for m in macros if m[0] == t)
@@ -242,6 +242,8 @@ def coq_case(case):
 def gen_judge(case, impl, wd):
     """gen_seq: labels, seqid ranges, tree shape and the json round trip, from the statement"""
     bad = []
+    if not impl[1]:
+        bad.append("the residues read back from the .json written by gen_seq are not numbered consecutively from 1 in input order")
     import networkx as nx
     from polyply.src.gen_seq import generate_seq_graph, MacroString, _apply_termini_modifications, _tag_nodes
     from polyply.src.simple_seq_parsers import parse_json
